@@ -75,7 +75,7 @@ def check(pid, tier):
                 if m["kind"] == "model-vs-spec" and not m.get("impl_differs"):
                     internal.append(f"model and spec disagree at run time (bug in the driver or an unproved model): {m}")
                     continue
-                k = core.match_known(pid, m.get("ops", []))
+                k = core.match_known(pid, m.get("ops", []), m.get("impl_output"))
                 if k:
                     known_lines.append(f"KNOWN-FINDING: property={pid} {k['what']}")
                     continue
